@@ -231,6 +231,10 @@ def run(prog, chk):
 
     lin_buffer.run(prog, chk, fs)
     c08_alias.run(prog, chk, fs)
+    # the property's other anchor: the send backlog of server clients is a Buffer used as a byte queue - what write() queues must be
+    # exactly what the socket did not take (the decision table of C13.l decides this clause for both properties)
+    from . import c13
+    c13.client_write_table(prog, chk, "C08.w")
 
 
 def _branch_tag(f, w):
